@@ -137,7 +137,7 @@ def legs_c18(res, env, only=None):
     tier, seed = res.tier, res.seed
     # ---- Miri
     if only in (None, "miri"):
-        sizes = [["20", "4", "40", "4"]] if tier == "quick" else [["60", "8", "120", "8"], ["30", "12", "300", "4"], ["10", "3", "2000", "3"], ["40", "6", "64", "6"]]
+        sizes = [["20", "4", "40", "4"], ["4", "2", "700", "2"]] if tier == "quick" else [["60", "8", "120", "8"], ["30", "12", "300", "4"], ["10", "3", "2000", "3"], ["40", "6", "64", "6"], ["4", "2", "9000", "2"]]
         t0 = time.time()
         import concurrent.futures as cf
         with cf.ThreadPoolExecutor(max_workers=4) as ex:
@@ -163,10 +163,8 @@ def legs_c18(res, env, only=None):
         res.evaluations += nvals
         res.legs.append({"leg": "miri", "tool": "cargo +nightly miri run (isolation off)", "processes": len(sizes), "values_checked_under_miri": nvals,
                          "reports": reports, "wall_s": round(time.time() - t0, 1)})
-    if tier != "thorough" and only is None:
-        return
-    # ---- AddressSanitizer
-    if only in (None, "asan"):
+    # ---- AddressSanitizer (thorough)
+    if (tier == "thorough" and only is None) or only == "asan":
         t0 = time.time()
         e = dict(env)
         e["RUSTFLAGS"] = "-Zsanitizer=address -Cforce-frame-pointers=yes"
@@ -197,13 +195,13 @@ def legs_c18(res, env, only=None):
                     break
             res.evaluations += nvals
             res.legs.append({"leg": "asan", "tool": "rustc nightly -Zsanitizer=address", "runs": 3, "values_checked_under_asan": nvals, "reports": reports, "wall_s": round(time.time() - t0, 1)})
-    # ---- valgrind memcheck on the plain release binary
+    # ---- valgrind memcheck on the plain release binary (quick and thorough: it costs a few seconds)
     if only in (None, "valgrind"):
         t0 = time.time()
         if shutil.which("valgrind") is None:
             res.inconclusive.append("valgrind not found")
         else:
-            rc, out = run(["valgrind", "--error-exitcode=9", "--leak-check=full", "--errors-for-leak-kinds=definite", "-q", BIN, "child", "c18", str(seed * 13), "300", "20", "20000", "16"], env, 1800)
+            rc, out = run(["valgrind", "--error-exitcode=9", "--leak-check=full", "--errors-for-leak-kinds=definite", "-q", BIN, "child", "c18", str(seed * 13), "300", "20", "20000" if tier == "quick" else "300000", "16"], env, 1800)
             m = re.search(r"C18DONE values=(\d+)", out or "")
             if rc == 9 or (out and ("Invalid read" in out or "Invalid free" in out or "Invalid write" in out)):
                 first = [l for l in (out or "").splitlines() if "Invalid" in l or "definitely lost" in l][:1]
